@@ -282,7 +282,8 @@ def stab_method_element(repo: Repo, cls: str, method: str):
                     continue
                 hp = func_params(h)[1:]
                 applies = [x for x in ast.walk(h) if isinstance(x, ast.Call) and isinstance(x.func, ast.Name) and hp and x.func.id == hp[0]
-                           and any(isinstance(a, ast.Starred) and h.args.vararg is not None and norm(a.value) == h.args.vararg.arg for a in x.args[1:])]
+                           and (any(isinstance(a, ast.Starred) and h.args.vararg is not None and norm(a.value) == h.args.vararg.arg for a in x.args[1:])
+                                or [norm(a) for a in x.args[1:]] == hp[1:])]       # gate(t_i, *positions)  or  gate(t_i, <the helper's own position parameters, in order>)
                 if not applies:
                     raise AnalysisError(f"{SSTATE}::{cls}.{c.func.attr}: helper does not apply its gate argument as gate(tableau, *positions)")
                 fwd = [a.id for a in c.args[1:] if isinstance(a, ast.Name)]
